@@ -144,7 +144,8 @@ def run(tier):
         got["base"] = base
         return got
     rng = core.Rng(core.seed(), 4)
-    limit = 4000 if tier == "quick" else 30000
+    from harness import fingerprint
+    limit = (4000 if tier == "quick" else 30000) * (max(fingerprint.boost("l2"), fingerprint.boost("l4")) if tier == "quick" else 1)
     jobs = []
     for idx, (c, i) in enumerate(zip(base["cases"], base["impl"])):
         if "ok" not in i:
